@@ -50,7 +50,7 @@ CLAIMS = {
           "Coq proof (exact-arithmetic LU/solve correctness, general n) + bit-exact correspondence + exact-rational residual oracle", "3/C16", True),
  "C17": C("Coq theorems for all sizes, bandwidths and indices: every constructor's entries are readable with the expected value (any number type), distinct in-band entries occupy distinct cells, off-band reads are zero, out-of-shape reads and illegal writes panic, a legal write changes exactly one entry; A+B and A-B for ALL NINE storage pairs (Full/Full, Banded/Banded with the widened band, Identity/Identity, and the six mixed pairs through the densifying fallback), component_add/sub/mul for every storage (implicit entries included) are the entrywise operations on the dense equivalents, and is_identity holds exactly when the dense equivalent is the identity (real instance). The by-value, assigning and by-reference operator variants are one model function each, tied to their separate Rust implementations by the replay." + TIE,
           "Coq proof (storage denotation of the Matrix model, all operators) + bit-exact operation-sequence correspondence", "3/C17", False),
- "C18": C("Coq theorems for all six solvers (any number type, right-hand side, Jacobian function, mass matrix, callback): nfev equals the number of logged right-hand-side evaluations (for BDF including the one made by the initial-step heuristic); for Radau and BDF njev equals the number of logged Jacobian evaluations (calls made inside a finite-difference Jacobian are not part of nfev); naccpt <= nstep for DOPRI5 and RK23 (RK4: =), naccpt + nrejct <= nstep for Radau and BDF (whole low-level solver). Not a theorem: naccpt <= nstep for DOP853 (replay + oracle)." + TIE,
+ "C18": C("Coq theorems for all six solvers (any number type, right-hand side, Jacobian function, mass matrix, callback): nfev equals the number of logged right-hand-side evaluations (for BDF including the one made by the initial-step heuristic); for Radau and BDF njev equals the number of logged Jacobian evaluations (calls made inside a finite-difference Jacobian are not part of nfev); naccpt <= nstep for DOPRI5, DOP853 and RK23 (RK4: =), naccpt + nrejct <= nstep for Radau and BDF (whole low-level solver)." + TIE,
           "Coq proof of counter invariants (symbolic execution of each loop iteration) + bit-exact correspondence with a recording IVP", "3/C18", True),
  "C19": C("Coq theorems for all six low-level solvers (any number type, kernel / right-hand side / Jacobian / mass matrix, and ANY callback, wrapped in a recorder): the recorded calls are contiguous (each xold is exactly the previous x), the newest ends at the solver's final x, UserInterrupt iff the newest call returned Interrupt and no earlier call did (nothing runs after an Interrupt); for RK23, RK4, Radau and BDF stated for the whole solver started with an empty record, whose oldest call is (x0, x0, y0, no interpolant); DOPRI5 also: at most one call per loop iteration. Not theorems: the ModifiedSolution clauses (re-evaluation, no-op, linear doubling) and 'ends at xend on success' for Radau/BDF -- scripted-callback replays for all six solvers." + TIE,
           "Coq proof (callback-trace invariant by symbolic execution of each loop iteration) + scripted-callback bit-exact correspondence", "3/C19", True),
